@@ -304,8 +304,10 @@ func (p *PX) tableOfBase(base ssa.Value, fr *pxFrame, st *pxState) *constTab {
 	case *ssa.Global:
 		return p.w.constTable(x)
 	case *ssa.Parameter:
-		if t, ok := fr.subst[x]; ok && t != nil && t.K == TLeaf {
-			if g, ok := t.V.(*ssa.Global); ok {
+		// (the address of a package variable is a leaf, or — when the initialiser
+		// stores into the variable — a read-only address term of pxro.go)
+		if t, ok := fr.subst[x]; ok && t != nil {
+			if g, ok := t.V.(*ssa.Global); ok && (t.K == TLeaf || (t.K == TPure && t.Name == "ro&" && len(t.Args) == 0)) {
 				return p.w.constTable(g)
 			}
 		}
